@@ -625,6 +625,8 @@ def add_context(rng, spec, root, feat):
         return
     nsrc = rng.choice([1, 1, 2, 3])
     sources = []
+    # context files of a further root of the same spec get the same file names in ANOTHER directory (exp_a/override.json, exp_b/override.json)
+    cdir = 'ctx' if not spec['context_files'] else f"ctx_{len(spec['context_files'])}"
     for si in range(nsrc):
         data = {}
         long_sites = [x for x in sites if isinstance(x[2], (list, str)) and len(x[2]) > 100]
@@ -642,7 +644,7 @@ def add_context(rng, spec, root, feat):
             if cands:
                 inst, k, v = rng.choice(cands)
                 nv = same_type_value(rng, same_type_value(rng, v))
-                ufile = f'ctx/used{si}.{rng.choice(["json", "yaml"])}'
+                ufile = f'{cdir}/used{si}.{rng.choice(["json", "yaml"])}'
                 ns = inst['ns']
                 if ns and rng.random() < 0.8:
                     cut = rng.randint(1, len(ns))
@@ -664,7 +666,7 @@ def add_context(rng, spec, root, feat):
                     base = tuple(data['uses'][0]['as'].split('::')) if data['uses'][0].get('as') else ()
                     rest2 = inst2['ns'][len(base):]
                     nv2 = same_type_value(rng, same_type_value(rng, same_type_value(rng, v2)))
-                    u2file = f'ctx/used{si}b.json'
+                    u2file = f'{cdir}/used{si}b.json'
                     if rest2 and rng.random() < 0.8:
                         cut2 = rng.randint(1, len(rest2))
                         p2, r2 = rest2[:cut2], rest2[cut2:]
@@ -684,7 +686,7 @@ def add_context(rng, spec, root, feat):
                         u_['via_placeholder'] = True
         kind = rng.choice(['dict', 'dict', 'file', 'Context'])
         if kind == 'file':
-            fname = f'ctx/context{si}.{rng.choice(["json", "yaml"])}'
+            fname = f'{cdir}/context{si}.{rng.choice(["json", "yaml"])}'
             spec['context_files'][fname] = data
             sources.append({'kind': 'file', 'file': fname, 'as_path': rng.random() < 0.3})
         else:
